@@ -364,6 +364,10 @@ class SegmentedReader:
     def buffered(self):
         return None
 
+    def at_eof(self):
+        """StreamReader.at_eof(): end of stream fed and nothing left buffered (forks when `available` is symbolic)."""
+        return self._eof and not (self._pos < self.available)
+
     async def read(self, n=-1):
         """StreamReader.read contract over the symbolic delivery offset (the returned length is concretised by forking)."""
         if self._exc is not None:
